@@ -25,6 +25,9 @@ def run(tier, seed):
                 if pat == "pages":    # the segment stays: nothing may be left pending when the free phase ended with expired purges
                     runs.append({"args": ["--c18", pat, "--step", str(step), "--gentle"], "env": env,
                                  "tag": "d%d.dec%d.m%d.%s.%s.gentle" % (delay, dec, mult, pat, an)})
+                    if mult == 1:     # ... also when the thread that freed the pages has exited (abandoned segment, visited by non-forced collects)
+                        runs.append({"args": ["--c18", pat, "--step", str(step), "--abandoned"], "env": env,
+                                     "tag": "d%d.dec%d.m%d.%s.%s.abandoned" % (delay, dec, mult, pat, an)})
     return osfam.run_os("C18", tier, seed, runs, builds=["rel"] if q else ["rel", "dbg"], own_guards=GUARDS, crash_decisive=False,
                         group=6,
                         extra_cov={"purge_delay": [-1, 0, 5, 10], "purge_decommits": [0, 1], "arena_purge_mult": [1, 10],
